@@ -46,7 +46,7 @@ def run_one(patch, props, tier, seed, only=None, keep=False):
         for prop in props:
             env = dict(os.environ, VERIF_REPO=str(scratch), VERIF_BUILD_ROOT=str(scratch / 'build'),
                        VERIF_SEED=str(seed), VERIF_EVIDENCE_DIR=str(scratch / 'evidence'))
-            cmd = [str(VERIF / 'check'), prop, '--tier', tier]
+            cmd = [str(VERIF / 'check'), prop, '--tier', tier, '--fail-fast']
             if only:
                 cmd += ['--only', only]
             t0 = time.time()
